@@ -11,6 +11,7 @@ def readReply (L : Layout) (d : Bytes) : Fields × Fields × Bool × Bool :=
     match readLeaf d l with
     | .exact v => (f1 ++ [(n, v)], f2 ++ [(n, v)], inv, mf)
     | .noValue vs => (f1 ++ [(n, vs.head?.getD .none_)], f2 ++ [(n, vs.getLast?.getD .none_)], inv, mf)
+    | .invalid [] => (f1, f2, inv, true)          -- malformed (a bool that is neither 0 nor 1, a date that is not digits)
     | .invalid zs => (f1 ++ [(n, zs.head?.getD .none_)], f2 ++ [(n, zs.getLast?.getD .none_)], true, mf)
     | .mustFail => (f1, f2, inv, true)) ([], [], false, false)
 
@@ -59,7 +60,7 @@ def judge (l : OpLine) (calls : List Call) (res : Res) (extras : List String) : 
                 let (f1, f2, inv, mf) := readReply R d
                 let r1 := op.interpret l.args f1
                 let r2 := op.interpret l.args f2
-                if mf then (if res == .err then [] else ["C02 fixed value mismatch: the call must fail"])
+                if mf then (if res == .err then [] else ["C02 a fixed value does not match or a field is malformed: the call must fail", "C03 the deciding datagram has a malformed field: the call must fail"])
                 else if res == r1 ∨ res == r2 ∨ (inv ∧ res == .err) then
                   (if op.name = "GetDevice" ∧ res != .err ∧ extras ≠ deviceExtras l.cfg serial f1
                    then [s!"C02 device name/address {deviceExtras l.cfg serial f1}"] else [])
